@@ -2,6 +2,17 @@ import gfapy
 
 class Validation:
 
+  def _validate_record_type_specific_info(self):
+    "Checks that the begin of each interval is not after its end"
+    for n in ["1","2"]:
+      beg = gfapy.posvalue(self.get("beg"+n))
+      end = gfapy.posvalue(self.get("end"+n))
+      if beg > end:
+        raise gfapy.ValueError(
+            "Edge: {}\n".format(str(self))+
+            "Field beg{}: begin position {} ".format(n, beg)+
+            "is larger than the end position {}".format(end))
+
   def validate_positions(self):
     "Checks that positions suffixed by $ are the last position of segments"
     if self.is_connected():
